@@ -165,6 +165,7 @@ class Gen:
         L.append(f"  end type {tname}")
         m.type_members[tname] = members
         self.all_type_members[id(m.decls[tname])] = members
+        self.type_parent[id(m.decls[tname])] = parent
         # interface block (unnamed) with an external procedure prototype
         if r.random() < 0.4:
             ext = self.nm("x")
@@ -296,6 +297,12 @@ class Gen:
                 for c in dict.fromkeys([mem[0], r.choice(mem)]):
                     L.append(f"{pad}{on}%{c.name} = 2")
                     self.sites.append((m.file, len(L) - 1, indent + len(on) + 2, (c.file, c.line), "component"))
+                # the parent type is itself a component: o%parent_t%inherited
+                par = self.type_parent.get(id(td))
+                if par is not None and self.type_members_of(par):
+                    c = self.type_members_of(par)[0]
+                    L.append(f"{pad}{on}%{par.name}%{c.name} = 2")
+                    self.sites.append((m.file, len(L) - 1, indent + len(on) + len(par.name) + 3, (c.file, c.line), "component through the parent type"))
         # inaccessible names: private entities of any earlier module that are not visible here
         hidden = []
         for u in self.mods:
@@ -313,6 +320,7 @@ class Gen:
 
     def generate(self):
         self.all_type_members = {}
+        self.type_parent = {}
         for i in range(self.r.randint(3, 5)):
             self.mods.append(self.module(i))
         files = {m.file: "\n".join(m.lines) + "\n" for m in self.mods}
